@@ -245,6 +245,8 @@ func R20(p *core.Prog) *core.Result {
 		}
 	}
 	omitFirst(p, r)
+	resolverIdentity(p, r)
+	nilFolder(p, r)
 	return r
 }
 
